@@ -64,3 +64,38 @@ if __name__ == "__main__":
         ex.setdefault((e["stage"], e["lang"], e["site"]), e["text"])
     for k, v in sorted(cls.items(), key=lambda kv: -kv[1]):
         print(v, k, "| e.g.", " ".join(ex[k].split())[:160])
+
+
+def event_class(e):
+    return "%s|%s|%s" % (e["stage"], e["lang"], e["site"])
+
+
+def classes_of(text, hook_scan=scan):
+    ev, _ = hook_scan([("x", text)])
+    return set(event_class(e) for e in ev)
+
+
+def shrink(text, cls, budget=120):
+    """Greedy delta-debugging over whitespace-separated pieces: keep removing chunks while the
+    same crash class still occurs."""
+    toks = text.split()
+    n = 2
+    tries = 0
+    while len(toks) >= 2 and tries < budget:
+        chunk = max(1, len(toks) // n)
+        removed = False
+        for i in range(0, len(toks), chunk):
+            cand = toks[:i] + toks[i + chunk:]
+            tries += 1
+            if cand and cls in classes_of(" ".join(cand)):
+                toks = cand
+                n = max(n - 1, 2)
+                removed = True
+                break
+            if tries >= budget:
+                break
+        if not removed:
+            if chunk == 1:
+                break
+            n = min(n * 2, len(toks))
+    return " ".join(toks)
